@@ -45,3 +45,51 @@ def killed_pack(store, jd, n):
     except Killed:
         return True
     return False
+
+
+# ---------------------------------------------------------------------------------------------------------------
+# values for "a dump that does not complete" (C06)
+EXCEPTIONS = {'ValueError': ValueError, 'OSError': OSError, 'TypeError': TypeError, 'KeyboardInterrupt': KeyboardInterrupt}
+
+
+class Bomb:
+    """an object whose pickling always raises the named exception"""
+
+    def __init__(self, exc):
+        self.exc = exc
+
+    def __reduce__(self):
+        raise EXCEPTIONS[self.exc]('injected while encoding')
+
+
+def failing_value(exc, shape):
+    """a value whose encoding raises `exc` after some output was produced: a list (pickle branch) or an object
+    array (raw .npy branch of a file store without compress_numpy, np.save elsewhere)"""
+    head = bytes(range(256)) * 12
+    if shape == 'list':
+        return [head, 'tail', Bomb(exc)]
+    import numpy as np
+    a = np.empty(3, dtype=object)
+    a[0], a[1], a[2] = head, 'tail', Bomb(exc)
+    return a
+
+
+def _ident(x):
+    return x
+
+
+class Gate:
+    """Gate(v) is stored as v itself, but the encoder is held inside its __reduce__ until `release` is set:
+    a dump in progress (the temp file exists, the result is not published yet)."""
+
+    def __init__(self, inner):
+        import threading
+        self.inner = inner
+        self.entered = threading.Event()
+        self.release = threading.Event()
+
+    def __reduce__(self):
+        self.entered.set()
+        if not self.release.wait(120):
+            raise RuntimeError('harness: a gated dump was never released')
+        return (_ident, (self.inner,))
